@@ -7,7 +7,7 @@ import numpy as np
 from vcheck import gen_all
 from translate import pysym
 
-THEOREMS = ['C12_bp8_nary', 'C12_bp4_nary', 'C12_mv_nary', 'C12_unary', 'C12_mv_bp_agree',
+THEOREMS = ['C12_bp8_nary', 'C12_bp4_nary', 'C12_mv_nary', 'C12_unary', 'C12_unary_inplace', 'C12_mv_bp_agree',
             'C12_bool_restriction', 'C12_de_morgan_bool', 'C12_de_morgan8', 'C12_lanes_independent']
 
 Z, X, U, O, P, R, F, N = range(8)
@@ -116,8 +116,33 @@ def run(ck):
                                              f'traced program gives {val}, function gives {int(got[j])}'))
                             break
                 ck.nontrivial(f'{fmt}_{op}_{k}')
-    ck.obligation('traced programs agree with the real functions on all 8^k / 4^k operand combinations', ok_corr and fams is not None,
-                  'correspondence')
+    # in place: bp?v_not(x, x) / bp?v_buf(x, x) -- the output array IS the operand (LogicSim evaluates every inverting gate this way)
+    for m, nvals, mdim in ((8, 8, 3), (4, 4, 2)):
+        for op in ('not', 'buf'):
+            cs = combos(nvals, 1)
+            x = logic.mv_to_bp(cs[0][np.newaxis, :])[0, :mdim].copy()
+            try:
+                r = getattr(logic, f'bp{m}v_{op}')(x, x)
+                full = np.zeros((3, x.shape[-1]), dtype=np.uint8)
+                full[:mdim] = r
+                got = logic.bp_to_mv(full[np.newaxis])[0, :cs.shape[1]]
+            except Exception:
+                failures.append((f'bp{m}_{op}:inplace', None, 'raises: ' + traceback.format_exc()[-300:]))
+                continue
+            exp = np.array([SPEC[op]([int(c)]) for c in cs[0]], dtype=np.uint8)
+            ck.count(cs.shape[1], f'bp{m}_{op}_inplace')
+            for j in np.flatnonzero(got != exp)[:3]:
+                failures.append((f'bp{m}_{op}:inplace', [int(cs[0, j])], f'called with out being the operand: got {int(got[j])} expected {int(exp[j])}'))
+            if fams is not None:
+                code, outs = fams[f'bp{m}_{op}_inplace'][0]
+                for j in range(cs.shape[1]):
+                    bits = pysym.eval_prog(code, outs, [(int(cs[0, j]) >> p_) & 1 for p_ in range(mdim)])
+                    if sum(b_ << i for i, b_ in enumerate(bits)) != int(got[j]):
+                        ok_corr = False
+                        failures.append((f'translator:bp{m}_{op}:inplace', [int(cs[0, j])], 'traced in-place program and function disagree'))
+                        break
+    ck.obligation('traced programs agree with the real functions on all 8^k / 4^k operand combinations (and the in-place unary forms)',
+                  ok_corr and fams is not None, 'correspondence')
     ck.sample({'op': 'bp8v_and', 'operands': ['R', 'F', 'N', '1'], 'result': 'P'})
 
     # 4. public wrappers: shapes, broadcasting, lanes, out=
